@@ -9,8 +9,9 @@ RULE = ("API level: multisets of <=4 timestamps (duplicates, on bin edges, on in
         "of the bin; centre exactly on the interval end) x units s/ms/us x dtypes, at lattice scales 2us/1ms/1s/2^-8 s; "
         "count with and without bin size, bin_average on Tsd/TsdFrame, TsGroup.count; each compared with the property's own "
         "formula (oracle) and with the Lean model of jitcount/_jitbin_array. distinct = distinct (timestamps, set, bin, scale)")
-PROVED = "countIn_spec, binLoop_centres (see PynProps/C05.lean)"
-NOT_PROVED = "nb_bins preallocation bound as a theorem; TsGroup column assembly; unit conversion of the bin size (C09 algebra)"
+PROVED = ("countIn_spec, binLoop_centres (bin grid), countIn_counts + binLoop_counts (the k-th reported bin of an epoch counts exactly that epoch's "
+          "samples with start+k*bin <= t < start+(k+1)*bin), nbBins_suffices (the preallocation never truncates); C15 jitbin_safe")
+NOT_PROVED = "bin_average means (sum/count: oracle), TsGroup column assembly, dtype, unit conversion of the bin size (C09 algebra)"
 ASSUMPTIONS = ["series restricted and sorted; ep canonical; bin size a positive multiple of 2 ns so that centres are on the ns lattice"]
 
 SCALES = [2000, 10**6, 10**9, 7812500]
